@@ -1,244 +1,23 @@
-(* Totality — models of the functions hardened for property C06 (malformed input: error, never
-   panic / hang / blow-up), as they stand AFTER the `fix:` commits of branch c06-hardening.
-   Definitions only; the proofs are in Totality_proofs.v.
+(* Totality — what property C06 (malformed input: error, never panic / hang / blow-up) states on
+   top of the models the other properties own.  Definitions only; proofs in Totality_proofs.v.
 
-   These are COPIES: the models other properties own (Ovba.v for C18, Col26.v for C01/C14/C15)
-   keep mirroring the code those properties were proved about; the copies below mirror the
-   hardened code statement by statement, with [Panic] kept at every Rust operation that can
-   panic at all (slice / index / checked arithmetic / unwrap), so that "no Panic" is a theorem
-   about the guards and not an artefact of the modelling.
+   The parsers themselves are modelled — after the hardening commits — by the slices that own them
+   (Cfb.v, Ovba.v, Col26.v, BiffSst.v, BiffRec.v, XlsbRec.v, …); their no-panic theorems are
+   collected in Properties/C06.v.  Nothing is modelled twice here: this file only adds the
+   ALLOCATION side of the sector-chain walk of src/cfb.rs, on Cfb.v's own model of
+   Sectors::get_chain:
 
-     1. [decompress_h]     src/cfb.rs  decompress_stream           (MS-OVBA containers)
-     2. [get_chain_h]      src/cfb.rs  Sectors::get + Sectors::get_chain (FAT / mini FAT walks)
-     3. [get_rc_h]         src/xlsx/mod.rs get_row_and_optional_column (cell references)
+     let mut chain = if len > 0 {
+         Vec::with_capacity(min(len, fats.len().saturating_mul(self.size)))   <- chain_capacity
+     } else { Vec::new() };
 
-   Error classes are small numbers (never message text); the correspondence compares the class
-   Ok / Err / Panic and the Ok payload. *)
-From Calamine Require Import Prelude Ovba Col26.
+   (earlier revisions of this file carried hardened copies of decompress_stream and of
+   get_row_and_optional_column; they are superseded by C18_no_panic_decompress and
+   Col26_proofs.get_row_and_optional_column_total / C14_no_panic_a1.) *)
+From Calamine Require Import Prelude Utf16 Cfb.
 Open Scope N_scope.
 Set Implicit Arguments.
 
-(* ========================================================================================== *)
-(* 1. decompress_stream, hardened                                                               *)
-(* ========================================================================================== *)
-Definition E_SIG : N := 0.        (* CfbError::Invalid { name: "signature" } *)
-Definition E_EOF : N := 1.        (* truncated_stream(): CfbError::Io(UnexpectedEof) *)
-Definition E_CHUNKSIG : N := 2.   (* CfbError::Invalid { name: "chunk signature" } *)
-Definition E_TOOLONG : N := 3.    (* CfbError::Invalid { name: "compressed chunk" } *)
-Definition E_OFFSET : N := 4.     (* CfbError::Invalid { name: "copy token offset" } *)
-
-(* read_u16(s.get(i..i + 2).ok_or_else(truncated_stream)?) *)
-Definition read_u16_h (s : list N) : outcome N :=
-  match s with
-  | a :: b :: _ => Ok (a + 256 * b)
-  | _ => Err E_EOF
-  end.
-
-(* res.len() - start: usize subtraction, a panic when it underflows *)
-Definition decomp_len_of (res : vec) (start : N) : outcome N :=
-  if v_len res <? start then Panic else Ok (v_len res - start).
-
-(* if res.len() - start >= 4096 { return Err(..) }
-   res.push( *s.get(i).ok_or_else(truncated_stream)?); i += 1; chunk_len += 1; *)
-Definition do_literal_h (start : N) (st : cstate) : outcome cstate :=
-  do d <- decomp_len_of (st_res st) start;
-  if 4096 <=? d then Err E_TOOLONG
-  else match st_in st with
-       | [] => Err E_EOF
-       | b :: s' => Ok (mkst s' (vec_push (st_res st) b) (st_clen st + 1))
-       end.
-
-(* let token = read_u16(s.get(i..i + 2).ok_or_else(..)?); i += 2; chunk_len += 2;
-   let decomp_len = res.len() - start;
-   let bit_count = (4..16).find(..).unwrap(); … len … if decomp_len + len > 4096 { Err }
-   … offset … if offset > res.len() { Err }
-   while len > offset { … }  buf[..len].copy_from_slice(..); res.extend_from_slice(..);
-   ([copy_token_fields], [copy_loop] and [copy_tail] are the unchanged statements: Ovba.v) *)
-Definition do_copy_h (start : N) (st : cstate) : outcome cstate :=
-  do token <- read_u16_h (st_in st);
-  let s' := skipn 2 (st_in st) in
-  do d <- decomp_len_of (st_res st) start;
-  do (len, offset) <- copy_token_fields d token;
-  if 4096 <? d + len then Err E_TOOLONG
-  else if v_len (st_res st) <? offset then Err E_OFFSET
-  else
-    do (len', res1) <- copy_loop (N.to_nat len) len offset (st_res st);
-    do res2 <- copy_tail len' offset res1;
-    Ok (mkst s' res2 (st_clen st + 2)).
-
-Fixpoint token_loop_h (n : nat) (bit_index bit_flags chunk_size start : N) (st : cstate)
-  : outcome (bool * cstate) :=
-  match n with
-  | O => Ok (false, st)
-  | S n' =>
-    if chunk_size <? st_clen st then Ok (true, st)
-    else
-      do st' <- (if N.land bit_flags (N.shiftl 1 bit_index) =? 0
-                 then do_literal_h start st else do_copy_h start st);
-      token_loop_h n' (bit_index + 1) bit_flags chunk_size start st'
-  end.
-
-Fixpoint chunk_loop_h (fuel : nat) (chunk_size start : N) (st : cstate) : outcome cstate :=
-  match fuel with
-  | O => OutOfFuel
-  | S f =>
-    match st_in st with
-    | [] => Ok st
-    | bit_flags :: s' =>
-      if chunk_size <? st_clen st then Ok st
-      else
-        do (brk, st') <- token_loop_h 8 0 bit_flags chunk_size start
-                           (mkst s' (st_res st) (st_clen st + 1));
-        if (brk : bool) then Ok st' else chunk_loop_h f chunk_size start st'
-    end
-  end.
-
-Fixpoint chunks_loop_h (fuel : nat) (s : list N) (res : vec) : outcome vec :=
-  match fuel with
-  | O => OutOfFuel
-  | S f =>
-    match s with
-    | [] => Ok res
-    | _ :: _ =>
-      do chunk_header <- read_u16_h s;
-      let s1 := skipn 2 s in
-      let start := v_len res in
-      let chunk_size := N.land chunk_header 0x0FFF in
-      let chunk_signature := N.shiftr (N.land chunk_header 0x7000) 12 in
-      let chunk_flag := N.shiftr (N.land chunk_header 0x8000) 15 in
-      if negb (chunk_signature =? 3) then Err E_CHUNKSIG
-      else if chunk_flag =? 0 then
-        let blk := firstn (N.to_nat CHUNK) s1 in              (* s.get(i..i + 4096) *)
-        if N.of_nat (length blk) <? CHUNK then Err E_EOF
-        else chunks_loop_h f (skipn (N.to_nat CHUNK) s1) (vec_extend_rev res (rev_append blk []))
-      else
-        do st <- chunk_loop_h f chunk_size start (mkst s1 res 0);
-        chunks_loop_h f (st_in st) (st_res st)
-    end
-  end.
-
-Definition decompress_h_fuel (fuel : nat) (s : list N) : outcome (list N) :=
-  match s with
-  | [] => Err E_EOF                                          (* s.first().ok_or_else(..)? *)
-  | sig :: s' =>
-    if negb (sig =? 1) then Err E_SIG
-    else do res <- chunks_loop_h fuel s' vec_empty; Ok (vec_to_list res)
-  end.
-
-(* every loop iteration consumes input, so the input length bounds the iterations *)
-Definition decompress_h (s : list N) : outcome (list N) := decompress_h_fuel (length s) s.
-
-(* the largest allocation request the decompressor makes on its own account: res.reserve(4096)
-   per chunk on top of what is already there, i.e. at most the output bound plus 4096 *)
-Definition decompress_alloc_bound (s : list N) : N := 2048 * N.of_nat (length s) + 4096.
-
-(* ========================================================================================== *)
-(* 2. Sectors::get and Sectors::get_chain, hardened                                             *)
-(* ========================================================================================== *)
-(* [body] is the file after its header (what the reader still delivers plus what was already
-   read: reading is deterministic, so the lazily filled buffer is a prefix of it); a sector id
-   names body[id * size .. (id + 1) * size], cut by the end of the file. *)
-Definition E_SECTOR_EOF : N := 10.   (* "sector starts after the end of the file" *)
-Definition E_FAT_OOB : N := 11.      (* "sector id out of the bounds of the allocation table" *)
-Definition E_CYCLE : N := 12.        (* "cyclic sector chain" *)
-Definition ENDOFCHAIN : N := 4294967294.
-
-(* list access with binary-number indices (no conversion of a file-declared 32-bit value to a
-   unary number: the extracted model has to run on such values) *)
-Fixpoint nth_N (l : list N) (i : N) : option N :=
-  match l with
-  | [] => None
-  | x :: t => if i =? 0 then Some x else nth_N t (i - 1)
-  end.
-Fixpoint take_N (l : list N) (n : N) : list N :=
-  match l with
-  | [] => []
-  | x :: t => if n =? 0 then [] else x :: take_N t (n - 1)
-  end.
-
-Definition sector_h (body : list N) (size id : N) : outcome (list N) :=
-  let start := id * size in
-  if N.of_nat (length body) <? start then Err E_SECTOR_EOF
-  else Ok (firstn (N.to_nat size) (skipn (N.to_nat start) body)).
-
-(* let mut remaining = fats.len();
-   while sector_id != ENDOFCHAIN {
-       if remaining == 0 { return Err(cyclic) }  remaining -= 1;
-       chain.extend_from_slice(self.get(sector_id, r)?);
-       sector_id = *fats.get(sector_id as usize).ok_or_else(..)?;
-   }
-   The recursion is on [remaining] itself: no extra fuel. *)
-Fixpoint chain_walk_h (remaining : nat) (body : list N) (size : N) (fats : list N)
-         (sector_id : N) (chain : list N) : outcome (list N) :=
-  if sector_id =? ENDOFCHAIN then Ok chain
-  else match remaining with
-       | O => Err E_CYCLE
-       | S r =>
-         do sec <- sector_h body size sector_id;
-         match nth_N fats sector_id with
-         | None => Err E_FAT_OOB
-         | Some next => chain_walk_h r body size fats next (chain ++ sec)
-         end
-       end.
-
-(* Vec::with_capacity(min(len, fats.len().saturating_mul(self.size))) when len > 0 *)
-Definition chain_capacity_h (size : N) (fats : list N) (len : N) : N :=
-  if 0 <? len then N.min len (N.min (N.of_nat (length fats) * size) U64MAX) else 0.
-
-(* if len > 0 { chain.truncate(len) } *)
-Definition get_chain_h (body : list N) (size : N) (fats : list N) (start len : N)
-  : outcome (list N) :=
-  do chain <- chain_walk_h (length fats) body size fats start [];
-  Ok (if 0 <? len then take_N chain len else chain).
-
-(* ========================================================================================== *)
-(* 3. get_row_and_optional_column, hardened (u64 saturating accumulation, then range checks)    *)
-(* ========================================================================================== *)
-Definition E_OUT_OF_RANGE : N := 7.   (* XlsxError::Unexpected("row/column number out of range") *)
-
-Definition sat64 (x : N) : N := N.min x U64MAX.
-Definition sadd64 (a b : N) : N := sat64 (a + b).      (* u64::saturating_add *)
-Definition smul64 (a b : N) : N := sat64 (a * b).      (* u64::saturating_mul *)
-
-(* c - b'0' / c - b'A' / c - b'a': u8 subtraction, a panic when it underflows *)
-Definition sub8 (c base : N) : outcome N := if c <? base then Panic else Ok (c - base).
-
-Definition scan_letter_h (base c : N) (s : scan_state) : outcome scan_state :=
-  do s1 <- (if s_readrow s then
-              if s_row s =? 0 then Err E_NO_ROW
-              else Ok {| s_row := s_row s; s_col := s_col s; s_pow := 1; s_readrow := false |}
-            else Ok s);
-  do d <- sub8 c base;
-  (* col = col.saturating_add(((c - b'A') as u64 + 1).saturating_mul(pow)); (d + 1 <= 256) *)
-  let col' := sadd64 (s_col s1) (smul64 (d + 1) (s_pow s1)) in
-  let pow' := smul64 (s_pow s1) 26 in
-  Ok {| s_row := s_row s1; s_col := col'; s_pow := pow'; s_readrow := false |}.
-
-Definition scan_char_h (c : N) (s : scan_state) : outcome scan_state :=
-  if is_digit c then
-    if s_readrow s then
-      do d <- sub8 c ch_0;
-      let row' := sadd64 (s_row s) (smul64 d (s_pow s)) in
-      let pow' := smul64 (s_pow s) 10 in
-      Ok {| s_row := row'; s_col := s_col s; s_pow := pow'; s_readrow := true |}
-    else Err E_NUMERIC_COLUMN
-  else if is_upper c then scan_letter_h ch_A c s
-  else if is_lower c then scan_letter_h ch_a c s
-  else Err E_ALPHANUMERIC.
-
-Fixpoint scan_loop_h (rs : list N) (s : scan_state) : outcome scan_state :=
-  match rs with
-  | [] => Ok s
-  | c :: t => do s' <- scan_char_h c s; scan_loop_h t s'
-  end.
-
-(* let row = row.checked_sub(1).ok_or(RangeWithoutRowComponent)?;
-   let row = u32::try_from(row).map_err(..)?;
-   let col = col.checked_sub(1).map(u32::try_from).transpose().map_err(..)?; *)
-Definition get_rc_h (range : list N) : outcome (N * option N) :=
-  do s <- scan_loop_h (rev range) scan_init;
-  if s_row s =? 0 then Err E_NO_ROW
-  else if U32MAX <? s_row s - 1 then Err E_OUT_OF_RANGE
-  else if s_col s =? 0 then Ok (s_row s - 1, None)
-  else if U32MAX <? s_col s - 1 then Err E_OUT_OF_RANGE
-  else Ok (s_row s - 1, Some (s_col s - 1)).
+(* the capacity get_chain reserves before it reads the first sector (usize saturating product) *)
+Definition chain_capacity (s : sectors) (fats : list N) (len : N) : N :=
+  if 0 <? len then N.min len (N.min (N.of_nat (length fats) * ssize s) U64MAX) else 0.
